@@ -120,11 +120,15 @@ def ts_occ(prog):
             if home:
                 psl_ok = mir.is_call(itm_s, "new") and len(itm_s[2]) == 3 and itm_s[2][2] == ("const", "u8", "0")
                 if not psl_ok:
+                    # a propagate that itself restarts the probe length of whatever it is handed makes the caller's value moot
+                    from . import rh
+                    psl_ok = rh.propagate_seed(prog) == "zero"
+                if not psl_ok:
                     errs.append("element is re-inserted at its home slot (hash %% cap) with a stale probe length")
             out.append(inst("TS-OCC", key, VIOLATION if errs else OK, fn, cs.line,
                             "; ".join(errs) if errs else "item is occupied%s" % (" and re-homed with psl 0" if home else "")))
-    if n < 3:
-        raise CheckerError("TS-OCC: expected >= 3 propagate call sites, found %d" % n)
+    if n < 2:
+        raise CheckerError("TS-OCC: expected >= 2 propagate call sites (growth, displacement), found %d" % n)
     return out
 
 
